@@ -25,7 +25,7 @@ func registerExtras() {
 	propertyRules["C09"] = append(propertyRules["C09"], ruleResponderWindow, ruleStaleCVRequest)
 	propertyRules["C14"] = append(propertyRules["C14"], ruleDurationSrc)
 	propertyRules["C10"] = append(propertyRules["C10"], ruleDurationSrc)
-	propertyRules["C16"] = append(propertyRules["C16"], ruleBlockStartRef)
+	propertyRules["C16"] = append(propertyRules["C16"], ruleBlockStartRef, ruleInstantSet)
 	propertyRules["C11"] = append(propertyRules["C11"], ruleDivNonzero)
 	propertyRules["C05"] = append(propertyRules["C05"], ruleDbftState)
 	propertyRules["C03"] = append(propertyRules["C03"], ruleDbftState)
@@ -42,7 +42,7 @@ func registerExtras() {
 	propertyRules["C02"] = append(propertyRules["C02"], ruleVerifyWindow)
 	propertyRules["C08"] = append(propertyRules["C08"], ruleVerifyWindow)
 	propertyRules["C08"] = append(propertyRules["C08"], rulePhaseProgress, ruleNoIdleCV, ruleForce)
-	propertyRules["C09"] = append(propertyRules["C09"], rulePhaseProgress, ruleViewResetCover, ruleSendPResp)
+	propertyRules["C09"] = append(propertyRules["C09"], rulePhaseProgress, ruleViewResetCover, ruleSendPResp, ruleDefCounts)
 	propertyRules["C07"] = append(propertyRules["C07"], rulePhaseProgress)
 	// the example runs watch-only nodes and a blocked validator in one process: a panic of the library on a watch-only
 	// node (index -1) or a payload broadcast by it stops / disturbs the whole simulation — seed C17r3-3
